@@ -172,3 +172,42 @@ def w_hybrid(kind):
 
 ob("C05", "F26.hybrid", {"kind": R(0, 3)}, tier="witness", T=60, twin=False, funcs=["cdd.sqlalchemy.emit.sqlalchemy_hybrid", "cdd.sqlalchemy.parse.sqlalchemy_hybrid"],
    bound="witness of F26")(w_hybrid)
+
+
+# P3: the hybrid emission carries the same Column(...) calls as the Table emission (AST level; the hybrid parser cannot read it back: F26) ---
+def hybrid_columns_agree(marker, mask, force_pk_id, opt):
+    import cdd.sqlalchemy.emit as E
+
+    cols = []
+    for i, n in enumerate(NAMES):
+        if mask & (1 << i):
+            t = "int" if n != "dataset_name" else "str"
+            cols.append((n, {"typ": ("Optional[%s]" % t) if opt else t, "doc": ("[PK] " if marker == i else "") + "col " + n}))
+    if not cols:
+        return ""
+    mk_ir = lambda name: {"name": name, "doc": "Header line.", "type": "static", "params": OrderedDict((k, dict(v)) for k, v in cols), "returns": None}
+    try:
+        table = E.sqlalchemy_table(mk_ir("config_tbl"), name="config_tbl", word_wrap=False, force_pk_id=force_pk_id)
+        hybrid = E.sqlalchemy_hybrid(mk_ir("Config"), emit_repr=False, emit_create_from_attr=False, class_name="Config", table_name="config_tbl",
+                                     word_wrap=False, force_pk_id=force_pk_id)
+    except Exception as e:
+        return "emitter raised %s: %s" % (type(e).__name__, e)
+
+    def columns(node):
+        out = []
+        for sub in ast.walk(node):
+            if isinstance(sub, ast.Call) and isinstance(sub.func, ast.Name) and sub.func.id == "Column":
+                out.append(ast.unparse(sub))
+        return out
+
+    ct, ch = columns(table), columns(hybrid)
+    if ct != ch:
+        return "hybrid and Table emissions carry different columns: %r vs %r" % (ch, ct)
+    if count_pk(hybrid) != 1:
+        return "hybrid emission has %d primary keys" % count_pk(hybrid)
+    return ""
+
+
+ob("C05", "P3.hybrid_columns_agree", {"marker": R(-1, 3), "mask": R(1, 15), "force_pk_id": BOOL, "opt": BOOL}, T=900, tpath=60,
+   funcs=["cdd.sqlalchemy.emit.sqlalchemy_hybrid", "cdd.sqlalchemy.emit.sqlalchemy_table", "cdd.sqlalchemy.utils.emit_utils.ensure_has_primary_key"],
+   bound="same column subsets / marker placements / force_pk_id as K2: the Column(...) calls inside the hybrid class's __table__ are textually the same as the Table variant's, exactly one primary key")(hybrid_columns_agree)
